@@ -22,6 +22,7 @@ def plan(tier, seed):
     for i in range(nr):
         shards.append({"kind": "rand", "n": 450 if q else 12000})
     shards.append({"kind": "module", "n": 25 if q else 300})
+    shards.append({"kind": "munge"})
     return {
         "level": "exploration",
         "rule": "programs of the special-form fragment: (a) exhaustive: every program with <= 4 (thorough 5) nodes over {nil,false,0,x,y} x {vec,not,call,let,try,do,if}, "
@@ -169,6 +170,34 @@ def worker(spec, out):
             out.maybe_flush()
     elif spec["kind"] == "module":
         module_path(b, R, out, rnd, spec["n"])
+    elif spec["kind"] == "munge":
+        munge_workload(R, out)
+
+
+def munge_workload(R, out):
+    """distinct names whose munged spellings coincide must still be distinct bindings (fn parameters, nested fns, globals)"""
+    pairs = [("a-b", "a_b"), ("x?", "x__Q__"), ("print", "print_"), ("x", "y"), ("a-b", "a-c"), ("class", "klass")]
+    for p, q in pairs:
+        templates = {
+            "nested-params": (f"((fn* [{p}] ((fn* [{q}] {p}) 2)) 1)", ("val", 1)),
+            "duplicate-params": (f"((fn* [{p} {q}] [{p} {q}]) 1 2)", ("val", ("vec", (1, 2)))),
+            "rest-param": (f"((fn* [{p} & {q}] [{p} (first {q})]) 1 2)", ("val", ("vec", (1, 2)))),
+            "global-vs-param": (f"(do (def {p} 1) ((fn* [{q}] {p}) 99))", ("val", 1)),
+            "let-vs-param": (f"(let* [{p} 1] ((fn* [{q}] {p}) 2))", ("val", 1)),
+            "param-vs-let": (f"((fn* [{p}] (let* [{q} 2] {p})) 1)", ("val", 1)),
+            "loop-locals": (f"(loop* [{p} 1 {q} 2] [{p} {q}])", ("val", ("vec", (1, 2)))),
+        }
+        for tname, (text, want) in templates.items():
+            for optset in (0, 4):
+                obs = R.run_text(text, optset, fresh=True)
+                out.ev(("munge", text, optset))
+                got = obs[0] if obs[0][0] != "compile-error" else ("compile-error",)
+                if got != want:
+                    from basilisp.lang.util import munge
+
+                    collide = munge(p) == munge(q)
+                    key = "C01/munge-collision/fn-params" if (collide and tname in ("nested-params", "duplicate-params", "rest-param", "global-vs-param")) else f"C01/names/{tname}-wrong-binding"
+                    out.violation(key, {"text": text, "expected": repr(want), "observed": repr(obs[0])[:200], "template": tname}, {"gen": "munge", "text": text, "optset": optset, "ctx": "top", "macros": False})
 
 
 def gen_random(gseed, p_mark=0.15):
